@@ -2,7 +2,9 @@
 
 stdin: {"acc":  [{"cls", "method", "mode": "set"|"ctor", "attrs": {name: V}, "arg": V|absent}, ...],
         "docs": [{"networks": [NET, ...], "xml": bool}, ...],
-        "hsfi": [[{"pre_segment_id", "post_segment_id", "pre_fraction_along", "post_fraction_along"}, ...], ...]}
+        "hsfi": [[{"pre_segment_id", "post_segment_id", "pre_fraction_along", "post_fraction_along"}, ...], ...],
+        "accseq": [{"cls", "steps": [{"method", "attrs", "arg"?}, ...]}],       # ONE object, attributes changed in place between calls
+        "dochist": [{"networks": [...], "add": {"pop_size", "instances", "conns", "inputs"}}]}   # summary, grow in place, summary
   V = {"t":"none"} | {"t":"str","v":s} | {"t":"int","v":n} | {"t":"float","v":hex} | {"t":"list","n":k}
 stdout (last line): {"acc": [{"seen": {name: V}, "res": {"ok": V} | {"err": cls}}, ...],
                      "docs": [{"summary": text, "events": [...] | null, "error": str|null, "xml_error": str|null}, ...], "hsfi": [bool, ...]}
@@ -229,6 +231,65 @@ def do_doc(d, tmp):
     return out
 
 
+def new_obj(cname):
+    if cname == "NeuroMLXMLParser":
+        from neuroml.hdf5.NeuroMLXMLParser import NeuroMLXMLParser
+        return NeuroMLXMLParser.__new__(NeuroMLXMLParser)
+    return getattr(neuroml, cname)()
+
+
+def do_accseq(q):
+    """ONE object of the class; each step sets some attributes in place and calls an accessor"""
+    sink = io.StringIO()
+    out = []
+    with contextlib.redirect_stdout(sink):
+        obj = new_obj(q["cls"])
+        for st in q["steps"]:
+            for k, v in st["attrs"].items():
+                setattr(obj, k, dec(v))
+            try:
+                r = getattr(obj, st["method"])(dec(st["arg"])) if "arg" in st else getattr(obj, st["method"])()
+                out.append({"ok": enc(r)})
+            except BaseException as e:  # noqa: BLE001
+                out.append({"err": type(e).__name__})
+    return out
+
+
+def do_dochist(d):
+    """summary() of a document, then the SAME document grown in place, then summary() again; also get_size of one
+    population before and after instances are appended"""
+    sink = io.StringIO()
+    out = {"before": None, "after": None, "sizes": None, "error": None}
+    try:
+        with contextlib.redirect_stdout(sink):
+            doc = build_doc(d)
+            out["before"] = doc.summary()
+            sizes = []
+            for net in doc.networks:
+                pop = neuroml.Population(id="added_pop", component="iaf", size=d["add"]["pop_size"])
+                sizes.append(pop.get_size())
+                net.populations.append(pop)
+                for i in range(d["add"]["instances"]):
+                    pop.instances.append(neuroml.Instance(id=i, location=neuroml.Location(x=i, y=0, z=0)))
+                sizes.append(pop.get_size())
+                for proj in net.projections:
+                    for j in range(d["add"]["conns"]):
+                        proj.connections.append(neuroml.Connection(id=1000 + j, pre_cell_id="../added_pop/0/iaf",
+                                                                   post_cell_id="../added_pop/1/iaf"))
+                for proj in net.electrical_projections:
+                    for j in range(d["add"]["conns"]):
+                        proj.electrical_connection_instance_ws.append(neuroml.ElectricalConnectionInstanceW(
+                            id=1000 + j, pre_cell="../added_pop/0/iaf", post_cell="../added_pop/1/iaf", synapse="gj", weight=1.0))
+                for il in net.input_lists:
+                    for j in range(d["add"]["inputs"]):
+                        il.input_ws.append(neuroml.InputW(id=2000 + j, target="../added_pop/0/iaf", destination="synapses", weight=1.0))
+            out["sizes"] = sizes
+            out["after"] = doc.summary()
+    except BaseException as e:  # noqa: BLE001
+        out["error"] = "%s: %s" % (type(e).__name__, str(e)[:300])
+    return out
+
+
 class _C:
     pass
 
@@ -250,7 +311,9 @@ def main():
     try:
         res = {"acc": [do_acc(c) for c in req.get("acc", [])],
                "docs": [do_doc(d, tmp) for d in req.get("docs", [])],
-               "hsfi": [do_hsfi(c) for c in req.get("hsfi", [])]}
+               "hsfi": [do_hsfi(c) for c in req.get("hsfi", [])],
+               "accseq": [do_accseq(q) for q in req.get("accseq", [])],
+               "dochist": [do_dochist(d) for d in req.get("dochist", [])]}
     finally:
         shutil.rmtree(tmp, ignore_errors=True)
     sys.stdout.write("\n" + json.dumps(res) + "\n")
